@@ -197,18 +197,35 @@ class Intrinsics:
         """heap fields and ghost variables a piece of code may modify (syntactic, conservative)"""
         fields, ghosts = set(), set()
         seen = set()
+        precise = {}          # field -> set of receiver names, or None when unknown
 
-        def scan(ns, cls_hint, depth):
+        def note(field, recv):
+            fields.add(field)
+            if isinstance(recv, ast.Name):
+                if precise.get(field, set()) is not None:
+                    precise.setdefault(field, set()).add(recv.id)
+            else:
+                precise[field] = None
+
+        def scan(ns, cls_hint, depth, self_ok=True):
             for n in ns:
                 for x in ast.walk(n):
+                    if isinstance(x, ast.Attribute) and isinstance(x.ctx, ast.Load):
+                        # nested dicts are mutated through local aliases: any mention counts
+                        for f, fty in eng.fields.items():
+                            if f.endswith('.' + x.attr) and fty.kind == 'map' \
+                                    and fty.args[1].kind == 'map':
+                                note(f, x.value if depth == 0 or (isinstance(x.value, ast.Name)
+                                     and x.value.id == 'self' and self_ok) else None)
                     if isinstance(x, ast.Attribute) and isinstance(x.ctx, ast.Store):
                         for f in eng.fields:
                             if f.endswith('.' + x.attr):
-                                fields.add(f)
+                                note(f, x.value if depth == 0 or (isinstance(x.value, ast.Name)
+                                     and x.value.id == 'self' and self_ok) else None)
                     if isinstance(x, ast.AugAssign) and isinstance(x.target, ast.Attribute):
                         for f in eng.fields:
                             if f.endswith('.' + x.target.attr):
-                                fields.add(f)
+                                note(f, None)
                     if isinstance(x, ast.Subscript) and isinstance(x.ctx, ast.Store):
                         b = x.value
                         while isinstance(b, ast.Subscript):
@@ -216,7 +233,8 @@ class Intrinsics:
                         if isinstance(b, ast.Attribute):
                             for f in eng.fields:
                                 if f.endswith('.' + b.attr):
-                                    fields.add(f)
+                                    note(f, b.value if depth == 0 or (isinstance(b.value, ast.Name)
+                                         and b.value.id == 'self' and self_ok) else None)
                     if isinstance(x, ast.Call) and isinstance(x.func, ast.Attribute):
                         recv = x.func.value
                         meth = x.func.attr
@@ -225,7 +243,9 @@ class Intrinsics:
                                 'extend', 'setdefault'):
                             for f in eng.fields:
                                 if f.endswith('.' + recv.attr):
-                                    fields.add(f)
+                                    note(f, recv.value if depth == 0 or (
+                                        isinstance(recv.value, ast.Name)
+                                        and recv.value.id == 'self' and self_ok) else None)
                         # repo methods: union of callee modifies (contract) or scan (inline)
                         for q, fi in eng.prog.funcs.items():
                             if fi.node.name == meth:
@@ -236,10 +256,12 @@ class Intrinsics:
                                         if m.startswith('g:'):
                                             ghosts.add(m[2:])
                                         else:
-                                            fields.add(m)
+                                            note(m, None)
                                 elif q not in seen and depth < 4:
                                     seen.add(q)
-                                    scan(fi.body(), fi.cls, depth + 1)
+                                    # an inlined method called on `self` writes our own `self`
+                                    on_self = isinstance(recv, ast.Name) and recv.id == 'self'
+                                    scan(fi.body(), fi.cls, depth + 1, self_ok and on_self)
                         # library effects
                         eff = self.lib_effects(x)
                         ghosts.update(eff)
@@ -247,7 +269,7 @@ class Intrinsics:
                         eff = self.lib_effects(x)
                         ghosts.update(eff)
         scan(nodes, None, 0)
-        # views: nested maps written through a local obtained by setdefault
+        self.last_precise = {f: r for f, r in precise.items() if r}
         return fields, ghosts
 
     def _static_mods(self, eng, con):
@@ -327,6 +349,12 @@ class Intrinsics:
             return IntrinsicV('str.format', v)
         if isinstance(v, Sym) and v.ty.kind == 'str' and attr == 'format':
             return IntrinsicV('str.format', v)
+        if isinstance(v, Sym) and v.ty.kind == 'opt' and v.ty.args[0].kind in ('map', 'set', 'list'):
+            # Optional container (dict.get without default): reading through it is only done
+            # after an `is not None` test; the path condition carries that fact
+            eng.oblige(st, v.ty.sort().is_some(v.t), 'type', 'not-None@L%d' % node.lineno,
+                       line=node.lineno)
+            return IntrinsicV('method.' + attr, Sym(v.ty.sort().val(v.t), v.ty.args[0]))
         if isinstance(v, (Sym, ListV, ViewV, EmptyDictV, EmptySetV)):
             return IntrinsicV('method.' + attr, v)
         raise Unsupported('attribute %s of %r' % (attr, v))
@@ -562,7 +590,7 @@ class Intrinsics:
             if k == 'set':
                 return z3.Select(cont.t, self.elem(x, cont.ty.args[0]))
             if k == 'map':
-                return cont.ty.sort().range().is_some(z3.Select(cont.t, self.elem(x, cont.ty.args[0])))
+                return cont.ty.osort().is_some(z3.Select(cont.t, self.elem(x, cont.ty.args[0])))
             if k == 'list':
                 return z3.Contains(cont.t, z3.Unit(self.elem(x, cont.ty.args[0])))
             if k == 'pyv':
@@ -607,7 +635,7 @@ class Intrinsics:
             k = cont.ty.kind
             if k == 'map':
                 kt = self.elem(key, cont.ty.args[0])
-                osort = cont.ty.sort().range()
+                osort = cont.ty.osort()
                 sel = z3.Select(cont.t, kt)
                 outs = []
                 for (s1, present) in eng.branch(st, osort.is_some(sel), 'K%d' % node.lineno):
@@ -653,12 +681,12 @@ class Intrinsics:
 
     def view_read(self, eng, st, view):
         outer = eng.hread(st, view.field, view.obj)
-        osort = outer.sort().range()
+        osort = eng.fields[view.field].osort()
         return Sym(osort.val(z3.Select(outer, view.key)), view.inner_ty)
 
     def view_write(self, eng, st, view, new_inner):
         outer = eng.hread(st, view.field, view.obj)
-        osort = outer.sort().range()
+        osort = eng.fields[view.field].osort()
         eng.hwrite(st, view.field, view.obj, z3.Store(outer, view.key, osort.some(new_inner)))
 
     def store_back(self, eng, st, recv_node, recv_val, newv):
@@ -700,7 +728,7 @@ class Intrinsics:
             if isinstance(cv, Sym) and cv.ty.kind == 'map':
                 kt = self.elem(key, cv.ty.args[0])
                 vt = self.elem(v, cv.ty.args[1])
-                new = Sym(z3.Store(cv.t, kt, cv.ty.sort().range().some(vt)), cv.ty, fresh=cv.fresh,
+                new = Sym(z3.Store(cv.t, kt, cv.ty.osort().some(vt)), cv.ty, fresh=cv.fresh,
                           origin=cv.origin)
                 self.store_back(eng, s1, cont_node, cont, new)
                 outs.append((s1, 'ok', None))
@@ -911,7 +939,7 @@ class Intrinsics:
             m = v.parts[0]
             vty = m.ty.args[1]
             kty = m.ty.args[0]
-            osort = m.ty.sort().range()
+            osort = m.ty.osort()
             l = fresh('valuesof', z3.SeqSort(vty.sort()))
             x = z3.Const('qx!valuesof', vty.sort())
             k = z3.Const('qk!valuesof', kty.sort())
@@ -1168,7 +1196,7 @@ class Intrinsics:
                 return [(st, None)]
         if k == 'map':
             kty, vty = rv.ty.args
-            osort = rv.ty.sort().range()
+            osort = rv.ty.osort()
             if meth == 'get':
                 kt = self.elem(pos[0], kty)
                 sel = z3.Select(rv.t, kt)
@@ -1200,7 +1228,7 @@ class Intrinsics:
                 sel = z3.Select(rv.t, kt)
                 dflt = pos[1]
                 if isinstance(dflt, EmptyDictV):
-                    dt = z3.K(vty.args[0].sort(), vty.sort().range().none)
+                    dt = z3.K(vty.args[0].sort(), vty.osort().none)
                 else:
                     dt = self.elem(dflt, vty)
                 newt = z3.If(osort.is_some(sel), rv.t, z3.Store(rv.t, kt, osort.some(dt)))
@@ -1255,7 +1283,7 @@ class Intrinsics:
         if ty.kind == 'set':
             return Sym(z3.K(ty.args[0].sort(), z3.BoolVal(False)), ty, fresh=True)
         if ty.kind == 'map':
-            return Sym(z3.K(ty.args[0].sort(), ty.sort().range().none), ty, fresh=True)
+            return Sym(z3.K(ty.args[0].sort(), ty.osort().none), ty, fresh=True)
         if ty.kind == 'list':
             return Sym(z3.Empty(ty.sort()), ty, fresh=True)
         if ty.kind == 'pyv':
@@ -1287,7 +1315,7 @@ class Intrinsics:
             if it.kind in ('mapitems', 'mapkeys', 'mapvalues'):
                 m = it.parts[0]
                 kty, vty = m.ty.args
-                osort = m.ty.sort().range()
+                osort = m.ty.osort()
                 dom = fresh('dom', z3.ArraySort(kty.sort(), BoolS))
                 x = z3.Const('qx!dom', kty.sort())
                 st.assume(z3.ForAll([x], z3.Select(dom, x) == osort.is_some(z3.Select(m.t, x))))
